@@ -765,6 +765,13 @@ class C20(Prop):
             "directories named like files (*.npz, *.csv, *.txt), an Agilent batch whose batch log and acquisition method list the lines in "
             "different orders (the first method list must win) or that no method can read, PerkinElmer directories with each "
             "parameters.conf variant and with a csv file beside the .xl files (PerkinElmer must win), directories without data; "
+            "round E: one input path named twice or three times for every sub-command (filter: data on which a second pass of the filter "
+            "changes something); npz fields stored as f4 / i4 / i8 / >f8 / >f4 / f2 / u4 (one type per file or per field; a fifth of the npz stacks "
+            "mix types, narrow first and narrow later, wide inputs with values a narrower type cannot hold), Fortran-ordered arrays, per-element "
+            "calibrations on 40 % of the npz inputs; filter windows 1 / 9 / 11 / 15 / an even one and thresholds -1 / 0.001 / 10 / 1e9; pad -0.0, "
+            "5e-324, 1.8e308, -1e300, 0.1; values +-inf, +-0.0, denormal, 1.8e308; stems with dots, a blank, non-ASCII; two inputs with one stem "
+            "(different directories / different suffixes); options shuffled, before the inputs, as --option=value; stacks of text images and npz "
+            "files with the element _element_ in any order; 9..16 inputs named s1..s16; images of 257..1300 rows or columns through convert and stack; "
             "run in process (main() with patched argv; thin delegating wrappers record which library loader delivered each input) and as "
             "`python -m pewlib` subprocess; non-trivial = at least one file written or a rejected combination; distinct by case hash")
     trusted = ["the library loaders (io.npz.load, io.textimage.load, io.agilent.load, io.thermo.load, io.csv.load, io.perkinelmer.load), the "
@@ -778,11 +785,20 @@ class C20(Prop):
                "in-process runs replace io.csv's ProcessPoolExecutor by an executor that runs each task at submit (pool workers may not "
                "start processes) and wrap the six `io.<format>.load` functions in recording, delegating wrappers; subprocess runs use the real ones",
                "the driver realises the opaque library filter as a table keyed by the CONTENT (shape and every token) of the grid the model hands "
-               "to it; a grid the harness did not filter gives a grid of -1"]
+               "to it; a grid the harness did not filter gives a grid of -1",
+               "NumPy's conversions are the model's opaque `Casting`: the harness asks NumPy (`astype`, `np.result_type`) what a field of each storage "
+               "type holds of every value that reaches it (pad value, input values under the promoted type, filter results under the element's type) "
+               "and sends the tables; float64 is the identity; a missing entry gives -2 / the type '?'. Values are compared as float64 bit patterns "
+               "(the widening of float32 / int32 / small int64 values is exact); the stored type of an output is recorded only",
+               "calibrations are interned by content per case (0 = the default Calibration()), read with io.npz.load from inputs and outputs"]
     assumptions = ["an input that is left with no requested element is skipped without output (the code prints 'skipping'); the property "
                    "text does not say otherwise",
                    "stack inputs share their element names (np.concatenate cannot join different structured dtypes); --elements lists "
-                   "have no duplicates; derived output names are pairwise distinct",
+                   "have no duplicates; derived output names may coincide (one path named twice, equal stems): the last write wins "
+                   "(the driver's `finalFiles`)",
+                   "where a storage type cannot hold the pad value (NaN or 2.5 in an integer input) or the filter's result (mean filter of an "
+                   "integer element) the driver's `TypesHold` is false: hypothesis-excluded and undetermined (the typed model is still compared: "
+                   "feature types-do-not-hold); .vtk of a non-float64 image and the calibration of a stack are recorded only",
                    "a derived output name that is an existing directory (a directory input named *.npz converted to .npz beside itself) is "
                    "counted as undetermined: the property does not say what happens (pewlib: IsADirectoryError, nothing written)",
                    "exit statuses are compared as ok / error only; whether a failing load ends as a usage error (status 2) or a traceback "
